@@ -77,3 +77,4 @@ LEVEL = {
 CFG['rule'] = CFG['rule'] + ' ' + 'Additions: every second user id extends the previous id by a digit, so that record keys of different users are adjacent and one is a prefix of the other.'
 
 CFG['rule'] = CFG['rule'] + ' ' + 'One scenario in three starts with equal copies of some records that have to move already present on their new owner (a sender that died between the confirmation and its local delete).'
+CFG['rule'] = CFG['rule'] + ' ' + 'Node data directories contain pattern characters ([ ] * ? and a blank); node root and shard-manager root are distinct; every node lists the servers starting with itself; the harness picks its loopback ports from a window chosen by process id.'
